@@ -157,4 +157,48 @@ example :
     let t3 := (importNamespace t2 [9] 2 [9]).1
     nsGet t1 [9] = some (2, [9]) ∧ nsGet t2 [9] = some (1, [42]) ∧ nsGet t3 [9] = some (1, [42]) := by decide
 
+/-! ### `Capability::merge` itself -/
+
+/-- **another document's capability is refused**, whatever the two kinds: neither a read-only replica
+nor a writable one can be handed the secret (or the id) of a different document -/
+theorem capMerge_foreign_refused (self other : Bytes × Nat × Bytes) (h : other.1 ≠ self.1) :
+    capMerge self other = none := by
+  simp [capMerge, h]
+
+/-- for the same document the merge never fails, names the same document afterwards, never turns a
+write capability into anything else, and changes something exactly when it upgrades read to write -/
+theorem capMerge_same_document (self other : Bytes × Nat × Bytes) (h : other.1 = self.1) :
+    ∃ changed res, capMerge self other = some (changed, res) ∧ res.1 = self.1 ∧
+      (self.2.1 = 1 → res = self) ∧
+      (changed = true ↔ (self.2.1 = 2 ∧ other.2.1 = 1)) ∧
+      (changed = true → res = other) ∧ (changed = false → res = self) := by
+  unfold capMerge
+  simp only [h, ne_eq, not_true_eq_false, if_false]
+  split
+  · rename_i hc
+    refine ⟨true, other, rfl, h, ?_, by simp [hc], by simp, by simp⟩
+    intro h1; rw [h1] at hc; exact absurd hc.1 (by decide)
+  · rename_i hc
+    exact ⟨false, self, rfl, rfl, fun _ => rfl, by simp [hc], by simp, by simp⟩
+
+/-- what `import_namespace` stores for a document it already has is the merge of the stored
+capability with the imported one -/
+theorem import_is_merge (t : T) (ns : Bytes) (kind : Nat) (raw : Bytes) (k0 : Nat) (raw0 : Bytes)
+    (h : nsGet t ns = some (k0, raw0)) :
+    ∃ changed res, capMerge (ns, k0, raw0) (ns, kind, raw) = some (changed, res) ∧
+      nsGet (importNamespace t ns kind raw).1 ns = some res.2 := by
+  unfold importNamespace capMerge
+  simp only [h, ne_eq, not_true_eq_false, if_false]
+  split
+  · refine ⟨true, (ns, kind, raw), rfl, ?_⟩
+    rename_i hc
+    have := find_nsInsert_same (ns, 1, raw) t.namespaces
+    simp only [nsGet, hc.2]; simp only at this; rw [this]; rfl
+  · refine ⟨false, (ns, k0, raw0), rfl, ?_⟩
+    have := find_nsInsert_same (ns, k0, raw0) t.namespaces
+    simp only [nsGet]; simp only at this; rw [this]; rfl
+
+example : capMerge ([1], 2, [1]) ([2], 1, [7]) = none ∧ capMerge ([1], 2, [1]) ([1], 1, [7]) = some (true, ([1], 1, [7])) ∧
+    capMerge ([1], 1, [7]) ([1], 2, [1]) = some (false, ([1], 1, [7])) := by decide
+
 end Tables
